@@ -48,7 +48,7 @@ def i(t, x):
 LEAVES = [
     ('add', 'Linear', 'f64', 'Linear', 'free'), ('add', 'Linear', 'Linear', 'Linear', 'merge'),
     ('add', 'Quadratic', 'f64', 'Quadratic', 'free'), ('add', 'Quadratic', 'Linear', 'Quadratic', 'deleg'), ('add', 'Quadratic', 'Quadratic', 'Quadratic', 'merge2'),
-    ('add', 'Polynomial', 'f64', 'Polynomial', 'map'), ('add', 'Polynomial', 'Linear', 'Polynomial', 'map'), ('add', 'Polynomial', 'Quadratic', 'Polynomial', 'map'),
+    ('add', 'Polynomial', 'f64', 'Polynomial', 'up'), ('add', 'Polynomial', 'Linear', 'Polynomial', 'up'), ('add', 'Polynomial', 'Quadratic', 'Polynomial', 'up'),
     ('add', 'Polynomial', 'Polynomial', 'Polynomial', 'pmerge'),
     ('mul', 'Linear', 'f64', 'Linear', 'free'), ('mul', 'Linear', 'Linear', 'Quadratic', 'mulll'),
     ('mul', 'Quadratic', 'f64', 'Quadratic', 'free'), ('mul', 'Quadratic', 'Linear', 'Polynomial', 'map'), ('mul', 'Quadratic', 'Quadratic', 'Polynomial', 'map'),
@@ -87,7 +87,7 @@ def spec_impl(op, a, b, c, req='true'):
 def leaf_spec_text():
     out = ['// ---- leaf remainders: 0 for map-free code, uninterpreted for the assumed BTreeMap-merge leaves ----\n']
     for op, a, b, c, kind in LEAVES:
-        sig = 'pub %s spec fn %s(x: v1::%s, y: %s, m: Map<u64, F64>) -> real' % ('open' if kind in ('free', 'merge', 'deleg', 'merge2', 'mulll', 'pmerge', 'pmul') else 'uninterp', rem_name(op, a, b), a, 'F64' if b == 'f64' else 'v1::' + b)
+        sig = 'pub %s spec fn %s(x: v1::%s, y: %s, m: Map<u64, F64>) -> real' % ('open' if kind in ('free', 'merge', 'deleg', 'merge2', 'mulll', 'pmerge', 'pmul', 'up') else 'uninterp', rem_name(op, a, b), a, 'F64' if b == 'f64' else 'v1::' + b)
         if kind == 'merge2':
             assert (op, a, b) == ('add', 'Quadratic', 'Quadratic')
             out.append('pub open spec fn rem_add_quadratic_quadratic(x: v1::Quadratic, y: v1::Quadratic, m: Map<u64, F64>) -> real {\n'
@@ -100,6 +100,13 @@ def leaf_spec_text():
             assert (op, a, b) == ('add', 'Polynomial', 'Polynomial')
             out.append('pub open spec fn rem_add_polynomial_polynomial(x: v1::Polynomial, y: v1::Polynomial, m: Map<u64, F64>) -> real {\n'
                        '    polynomial_val(x, m) + polynomial_val(y, m) - ksum(kacc(pitems(x.terms@ + y.terms@), (x.terms.len() + y.terms.len()) as int, true, Map::empty()), pw(m))\n}\n')
+            continue
+        if kind == 'up':
+            # verified macro instance impl_add_from!(Polynomial, B) = self + Polynomial::from(rhs): the upcast lists a map g (spec/up_spec.rs), and Polynomial + Polynomial merges that listing into the
+            # accumulated terms of self - the result is kapply(.., g), whatever the order of the listing; the remainder is DEFINED as the difference to it
+            assert op == 'add' and a == 'Polynomial'
+            g = {'f64': 'cmap(y)', 'Linear': 'lmap(y)', 'Quadratic': 'qmap(y)'}[b]
+            out.append(sig + ' { rem_add_up(x, %s, %s, m) }\n' % (g, v(b, 'y')))
             continue
         if kind == 'pmul':
             # verified leaf: the loops of Polynomial * Polynomial build the EXACT product under canonical (sorted) keys; the final collect drops the entries with |v| <= EPSILON
@@ -613,6 +620,23 @@ def typed_macro_units():
             U.append(unit(file, 'impl_mul_inverse', args, ln, 'mul', 'impl core::ops::Mul<%s> for %s { type Output = %s;' % (T[b]['rust'], T[a]['rust'], T[b]['rust']), si('Mul', 'mul', a, b, b),
                           'fn mul(self, rhs: %s) -> (r: %s)\n        ensures %s' % (T[b]['rust'], T[b]['rust'], contract('mul', b, a, b, lhs='rhs', rhs='self'))
                           + ('\n            linear_fin(rhs) && fin(self) ==> lin_scaled(r, rhs, self),' if b == 'Linear' else '')))
+    # Polynomial + B = self + Polynomial::from(rhs) (impl_add_from!): the upcast lists a map, the merge of that listing is order-independent (lemma_padd_up)
+    for args, ln in core.macro_invocations('polynomial.rs', 'impl_add_from'):
+        a, b = args
+        if a != 'Polynomial' or b not in ('f64', 'Linear', 'Quadratic'):
+            continue
+        g = {'f64': 'cmap(rhs)', 'Linear': 'lmap(rhs)', 'Quadratic': 'qmap(rhs)'}[b]
+        u = unit('polynomial.rs', 'impl_add_from', args, ln, 'add', 'impl core::ops::Add<%s> for Polynomial { type Output = Polynomial;' % T[b]['rust'], si_req('Add', 'add', a, b, a, qreq(a, b)),
+                 'fn add(self, rhs: %s) -> (r: Polynomial)\n        ensures %s' % (T[b]['rust'], contract('add', a, b, a)),
+                 proofs=[(('before', r'__r\s*\}\s*$'), '''proof {
+            if %s && %s {
+                lemma_plists_fin(__p, %s);
+                assert forall|m: Map<u64, F64>| #![trigger polynomial_val(__r, m)] polynomial_val(__r, m) == polynomial_val(self, m) + %s - %s(self, rhs, m) by { lemma_padd_up(self, __p, %s, m); }
+            }
+        }
+        ''' % (f(a, 'self'), f(b, 'rhs'), g, v(b, 'rhs'), rem_name('add', a, b), g))])
+        u.rsubs += [(r'self \+ Polynomial::from\(rhs\)', 'let __p = Polynomial::from%s(rhs); let __r = self + __p; __r' % ('_quadratic' if b == 'Quadratic' else ''), 1)]
+        U.append(u)
     # a - b is computed as a + (-b) with an exact negation: the contract of a + n for the (existentially named) negation n of b
     for file in ('linear.rs', 'quadratic.rs', 'polynomial.rs'):
         for args, ln in core.macro_invocations(file, 'impl_sub_by_neg_add'):
@@ -1105,6 +1129,8 @@ pub fn from_iter(iter: Vec<(SortedIds, F64)>) -> (r: Polynomial)
         // R22: the IntoIterator parameter is instantiated at Vec.  The monomials of the result list, one per key, the epsilon-dropping merge of the given (ids, coefficient) items
         ensures
             kfin(sitems(iter@)) ==> poly_fin(r.terms@) && forall|m: Map<u64, F64>| #![trigger polynomial_val(r, m)] polynomial_val(r, m) == ksum(kacc(sitems(iter@), iter.len() as int, true, Map::empty()), pw(m)),
+            // r lists the merged map: one monomial per key, its coefficient the accumulated value
+            kfin(sitems(iter@)) ==> klists(pitems(r.terms@), r.terms.len() as int, kacc(sitems(iter@), iter.len() as int, true, Map::empty())),
             forall|j: int| 0 <= j < r.terms.len() ==> exists|i: int| 0 <= i < iter.len() && (#[trigger] iter[i]).0.0@ == (#[trigger] r.terms[j]).ids@,''',
                 rsubs=[(r'let mut terms = BTreeMap::new\(\);', 'let mut terms: SMap = SMap::new();', 1),      # R28
                        (r'(?s)terms\.into_iter\(\)\.map\(\|\(ids, coefficient\)\| Monomial \{\s*ids: ids\.into_inner\(\),\s*coefficient,?\s*\}\)\.collect\(\)', 'smap_into_monomials(terms)', 1),
